@@ -600,7 +600,7 @@ Proof. cbv zeta. split; vm_compute; reflexivity. Qed.
    inside s and its terminator, and *beg, *end, xrow and the function's own two blocks are all it stored into -- with the
    model's answer.  A number outside int (`2147483648`, `2147483647+1`) is undefined behaviour of the C text (atoi / signed
    overflow; EOverflow in CLite, see C06_tr_addr_nonvacuous): not a read or write outside a buffer. *)
-From NV Require TrLbufBase TrLbufMarks TrExAddr.
+From NV Require TrLbufBase TrLbufMarks ExAddrDefs TrExAddr.
 Theorem C05_tr_ex_region_reads_safe : forall m bs bb be bl s xrow len gbufs lblk vb0 e0 search d fuel,
   CLiteProps.str_at m bs s -> nonul s -> CLiteProps.cell_at m GenCFuncs.G_xrow xrow ->
   nth_error m bb = Some [vb0] -> nth_error m be = Some [CLite.VInt e0] ->
@@ -608,7 +608,7 @@ Theorem C05_tr_ex_region_reads_safe : forall m bs bb be bl s xrow len gbufs lblk
   nth_error m bl = Some lblk -> nth_error lblk TrLbufBase.L_ln_n = Some (CLite.VInt len) -> TrLbufMarks.marks_ints lblk ->
   nth_error m GenCFuncs.G_lit_25_1 = Some GenCFuncs.gb_lit_25_1 -> TrExAddr.rdist bs bb be bl ->
   TrExAddr.int_ok xrow -> TrExAddr.int_ok len -> TrExAddr.int_ok e0 -> (2 * Z.of_nat (S (length s)) <= 2147483647)%Z ->
-  TrExAddr.nosearch s -> (2 * S (length s) <= fuel)%nat ->
+  ExAddrDefs.nosearch s -> (2 * S (length s) <= fuel)%nat ->
   exists reg xr, ex_region len (ex_lineno len (TrExAddr.mark_of lblk) search) s xrow = Ok (reg, xr) /\
     (TrExAddr.region_fit len (TrExAddr.mark_of lblk) search s xrow ->
      exists m', CLite.callf GenCFuncs.cprog fuel (S (S (S (S d)))) GenCFuncs.F_ex_region [CLite.VPtr bs 0%Z; CLite.VPtr bb 0%Z; CLite.VPtr be 0%Z] m
